@@ -45,7 +45,12 @@ RULE = ("seven case families: (mask) connected hole-free masks - 4/8-"
         "contour column of a dict dataset, 2-8 features (raw, cvx, prnc, "
         "tilt, moments, volume) asked of the SAME object in random order, "
         "each compared bit-for-bit with a fresh copy; every feature call of "
-        "every family is wrapped by an input-immutability guard; (dataset) "
+        "every family is wrapped by an input-immutability guard; (fmoments) "
+        "contours with dyadic vertices (sampled ellipses, polygons, mask "
+        "contours; denominators 1 and 8) at offsets 0..10^4 px as int32, "
+        "float16 (when representable), float32, float64, also translated "
+        "and axis-swapped: moments, area, raw/cvx/prnc ratio and tilt "
+        "against exact integer arithmetic; (dataset) "
         "ancillary features of in-memory datasets. A case is non-trivial "
         "when the implementation returned a value (not an error/nan) that "
         "was compared; distinct = different generated input")
@@ -1051,7 +1056,9 @@ def do_sphere(ctx, case):
         inscribed polygon loses O(1/n^2);
     (b) discretised ellipse mask of semi-axes (a, b) pixels -> get_contour ->
         get_volume: the contour runs through the centres of the boundary
-        pixels, about half a pixel inside: relative error <= 1.7/min(a,b),
+        pixels, about half a pixel inside: relative error <= 2/min(a,b)
+        (the whole parameter grid was scanned: maximum 1.73/min, maximum
+        ratio 0.48 per fourfold resolution, at most 3.9 % at 16x),
         and the error shrinks to <= 0.6 of its value when the resolution is
         quadrupled (expected: about a quarter)."""
     np = _np()
@@ -1093,9 +1100,9 @@ def do_sphere(ctx, case):
         v = float(get_volume(cont, xs.mean() * 0.34, ys.mean() * 0.34, 0.34))
         tv = 4 / 3 * math.pi * A * B * B * 0.34 ** 3
         err = abs(v - tv) / tv
-        if err > 1.7 / min(A, B):
+        if err > 2.0 / min(A, B):
             ctx.fail(case, "discretised ellipsoid %gx%g px: volume %r, "
-                     "analytic %r (rel. error %.3g > 1.7/min)" % (
+                     "analytic %r (rel. error %.3g > 2/min)" % (
                          A, B, v, tv, err))
             ok = False
         if prev is not None and err > prev * 0.6:
@@ -1386,6 +1393,248 @@ def do_dataset(ctx, case):
     run.corr_checked += 0
 
 
+# --------------------------------------------------------------------------
+# exact moments of contours of every dtype (documented: computed in 64 bit)
+# --------------------------------------------------------------------------
+def exact_sums(num):
+    """a00, a10, a01, a20, a11, a02 of cont_moments_cv in exact integer
+    arithmetic (model independent; vertices are integer numerators)"""
+    n = len(num)
+    a00 = a10 = a01 = a20 = a11 = a02 = 0
+    for i in range(n):
+        x0, y0 = num[i]
+        x1, y1 = num[(i + 1) % n]
+        d = x1 * y0 - x0 * y1
+        a00 += d
+        a10 += d * (x1 + x0)
+        a01 += d * (y1 + y0)
+        a20 += d * (x1 * (x1 + x0) + x0 * x0)
+        a11 += d * (x1 * (2 * y1 + y0) + x0 * (y1 + 2 * y0))
+        a02 += d * (y1 * (y1 + y0) + y0 * y0)
+    return a00, a10, a01, a20, a11, a02
+
+
+def exact_central(num):
+    """None or dict(a00, N20, N02, N11, m20, m02): mu20 = N20/(36|a00|) ..."""
+    a00, a10, a01, a20, a11, a02 = exact_sums(num)
+    if a00 == 0:
+        return None
+    # magnitude of the summed terms (they are rounded before they cancel):
+    # sum |dxy| * 3 cmax^2 bounds sum |term| of a20, a02 (and a11 / 2)
+    n = len(num)
+    sabs = sum(abs(num[(i + 1) % n][0] * num[i][1] -
+                   num[i][0] * num[(i + 1) % n][1]) for i in range(n))
+    cmax = max(abs(v) for p in num for v in p)
+    return dict(a00=a00, N20=3 * a00 * a20 - 2 * a10 * a10,
+                N02=3 * a00 * a02 - 2 * a01 * a01,
+                N11=3 * a00 * a11 - 4 * a10 * a01,
+                m20=Fraction(abs(a20), 12), m02=Fraction(abs(a02), 12),
+                sabs=sabs, cmax=cmax,
+                terms=Fraction(sabs * 3 * cmax * cmax, 12))
+
+
+def exact_hull(num):
+    """strict convex hull (Andrew's monotone chain), integer arithmetic"""
+    pts = sorted(set(map(tuple, num)))
+    if len(pts) < 3:
+        return [list(p) for p in pts]
+
+    def cross(o, a, b):
+        return (a[0] - o[0]) * (b[1] - o[1]) - (a[1] - o[1]) * (b[0] - o[0])
+    lo, up = [], []
+    for p in pts:
+        while len(lo) >= 2 and cross(lo[-2], lo[-1], p) <= 0:
+            lo.pop()
+        lo.append(p)
+    for p in reversed(pts):
+        while len(up) >= 2 and cross(up[-2], up[-1], p) <= 0:
+            up.pop()
+        up.append(p)
+    return [list(p) for p in lo[:-1] + up[:-1]]
+
+
+def gen_fmoments(rng, pool_contours):
+    """contours with exactly representable (dyadic) vertices, placed at
+    offsets between 0 and 10^4 px, for all float widths and int32"""
+    den = rng.choice([1, 1, 8])
+    f16 = den == 1 and rng.random() < 0.3
+    r = rng.random()
+    if r < 0.5:
+        # sampled ellipse, e.g. 54 x 22 px, vertices rounded to the 1/den grid
+        n = rng.randint(8, 48)
+        a = rng.uniform(3, 30 if not f16 else 15)
+        b = rng.uniform(3, 14)
+        th = rng.choice([0, 0, rng.uniform(0, math.pi)])
+        shape = []
+        for i in range(n):
+            t = -2 * math.pi * i / n
+            x, y = a * math.cos(t), b * math.sin(t)
+            shape.append([int(round(den * (x * math.cos(th) - y * math.sin(th)))),
+                          int(round(den * (x * math.sin(th) + y * math.cos(th))))])
+    elif r < 0.8 or not pool_contours:
+        shape = [[p[0] * den + rng.randint(0, den - 1),
+                  p[1] * den + rng.randint(0, den - 1)]
+                 for p in simple_polygon(rng, rng.randint(4, 24),
+                                         rng.randint(4, 40 if not f16 else 15))]
+    else:
+        c = rng.choice(pool_contours)
+        x0 = min(p[0] for p in c)
+        y0 = min(p[1] for p in c)
+        shape = [[(p[0] - x0) * den, (p[1] - y0) * den] for p in c]
+    if f16:
+        ox = rng.choice([0, 20, 100, 400, rng.randint(0, 1500)])
+        t = [rng.randint(-10, 100), rng.randint(-5, 20)]
+    else:
+        ox = rng.choice([0, 0, 10, 100, 1000, 1000, 3000, 5000, 10000,
+                         rng.randint(0, 10000)])
+        t = [rng.choice([rng.randint(-50, 200), 1000, 4000]),
+             rng.randint(-30, 50)]
+    oy = rng.randint(20, 90)
+    num = [[x + den * ox, y + den * oy] for x, y in shape]
+    return dict(kind="fmoments", num=num, den=den, t=t, f16=f16)
+
+
+def do_fmoments(ctx, case):
+    """cont_moments_cv / inert_ratio_raw / _cvx / _prnc / tilt / area of a
+    contour given as int32, float16 (when representable), float32, float64
+    equal the EXACT values of the same vertices (the code documents 64 bit
+    arithmetic for every input dtype), also after translation and axis swap.
+    Tolerance: 1e-9 relative plus the binary64 rounding of the summed
+    terms, 1e-14 * sum|dxy| * 3 max|x|^2 / 12 (about 100 ulp of the largest
+    partial sums), which cancel down to the central moments."""
+    np = _np()
+    from dclab.features import inert_ratio as ir
+    run = ctx.run
+    ir = guard(ctx, case).module(ir)
+    den = case["den"]
+    num0 = [list(p) for p in case["num"]]
+    t = case["t"]
+    variants = [("base", num0),
+                ("translated", [[x + den * t[0], y + den * t[1]]
+                                for x, y in num0]),
+                ("swapped", [[y, x] for x, y in num0])]
+    dtypes = ["float32", "float64"] + (["int32"] if den == 1 else []) + \
+        (["float16"] if case["f16"] else [])
+    nontrivial = False
+    done = False
+    for vname, num in variants:
+        ex = exact_central(num)
+        hull = exact_hull(num)
+        exh = exact_central(hull) if len(hull) >= 3 else None
+        exact64 = np.array(num, dtype=np.float64) / den
+        for dt in dtypes:
+            c = exact64.astype(dt)
+            if not np.array_equal(c.astype(np.float64), exact64):
+                run.count("fmoments:not-representable:" + dt)
+                continue
+            run.count("fmoments:%s:%s" % (vname, dt))
+            where = "%s contour, dtype %s" % (vname, dt)
+            mom = ir.cont_moments_cv(c)
+            if ex is None:
+                if mom is not None and den == 1:
+                    ctx.fail(case, "%s: moments of a zero-area contour" % where)
+                continue
+            if mom is None:
+                ctx.fail(case, "%s: cont_moments_cv returned None, exact "
+                         "area %s" % (where, Fraction(abs(ex["a00"]),
+                                                     2 * den * den)))
+                done = True
+                break
+            A = abs(ex["a00"])
+            want = dict(m00=Fraction(A, 2 * den ** 2),
+                        mu20=Fraction(ex["N20"], 36 * A * den ** 4),
+                        mu02=Fraction(ex["N02"], 36 * A * den ** 4),
+                        mu11=Fraction(ex["N11"], 72 * A * den ** 4))
+            big = float(ex["terms"]) / den ** 4
+            bad = None
+            for k, w in want.items():
+                sc = 0.0 if k == "m00" else big
+                got = float(mom[k])
+                if not (abs(got - float(w)) <= 1e-9 * abs(float(w)) +
+                        1e-14 * sc):          # nan fails too
+                    bad = "cont_moments_cv[%s] = %r, exact %r" % (
+                        k, got, float(w))
+                    break
+            # ratios, tilt
+            n20, n02, n11 = ex["N20"], ex["N02"], ex["N11"]
+            if bad is None and n20 > 0 and n02 > 0:
+                mu_min = float(min(want["mu20"], want["mu02"]))
+                rtol = 1e-9 + 2e-14 * big / mu_min
+                raw = float(ir.get_inert_ratio_raw(c))
+                wraw = math.sqrt(Fraction(n20, n02))
+                if not abs(raw - wraw) <= rtol * wraw:
+                    bad = "get_inert_ratio_raw = %r, exact %r" % (raw, wraw)
+                hyp = math.hypot(n11, n20 - n02)
+                if bad is None and hyp > 1e-4 * (n20 + n02):
+                    tilt = float(ir.get_tilt(c))
+                    wt = abs(0.5 * math.atan2(-n11, n20 - n02))
+                    dlt = abs(tilt - wt)
+                    dlt = min(dlt, abs(math.pi / 2 - dlt))   # branch cut
+                    if not dlt <= rtol * (n20 + n02) / hyp:
+                        bad = "get_tilt = %r, exact %r" % (tilt, wt)
+                xm = float(np.abs(exact64).max())
+                if bad is None and n20 * n02 > n11 * n11 / 4 and xm <= 4096:
+                    ptol = 3e-5 + 2e-14 * xm ** 3 * max(
+                        float(np.abs(exact64).min(axis=0).max()), 1) / mu_min
+                    s_ = n20 + n02
+                    if s_ - hyp > 1e-6 * s_:
+                        wp = math.sqrt((s_ + hyp) / (s_ - hyp))
+                        prnc = float(ir.get_inert_ratio_prnc(c))
+                        if not abs(prnc - wp) <= ptol * wp:
+                            bad = "get_inert_ratio_prnc = %r, exact %r" % (
+                                prnc, wp)
+            if bad is None and exh is not None and exh["N20"] > 0 and \
+                    exh["N02"] > 0:
+                Ah = abs(exh["a00"])
+                bigh = float(exh["terms"])
+                mh = float(min(Fraction(exh["N20"], 36 * Ah),
+                               Fraction(exh["N02"], 36 * Ah)))
+                cvx = float(ir.get_inert_ratio_cvx(c))
+                wc = math.sqrt(Fraction(exh["N20"], exh["N02"]))
+                if not abs(cvx - wc) <= (1e-9 + 2e-14 * bigh / mh) * wc:
+                    bad = "get_inert_ratio_cvx = %r, exact %r" % (cvx, wc)
+            if bad is not None:
+                ctx.fail(case, "%s: %s" % (where, bad))
+                done = True
+                break
+            nontrivial = True
+        if done:
+            break
+
+    # correspondence with the Coq model: float32 input of the base contour,
+    # vertices scaled to integers (m_pq scales with den^(p+q+2))
+    c32 = (np.array(num0, dtype=np.float64) / den).astype(np.float32)
+    if np.array_equal(c32.astype(np.float64) * den, np.array(num0)):
+        mom = ir.cont_moments_cv(c32)
+        third_ok = max(abs(v) for p in num0 for v in p) <= 1500 * den
+        cmax0 = max(abs(v) for p in num0 for v in p)
+        sabs0 = sum(abs(num0[(i + 1) % len(num0)][0] * num0[i][1] -
+                        num0[i][0] * num0[(i + 1) % len(num0)][1])
+                    for i in range(len(num0)))
+
+        def chk(model, mom=mom):
+            if model == [0]:
+                return None if mom is None else (
+                    "cont_moments_cv float32 (model None)", None)
+            if mom is None:
+                return "cont_moments_cv float32 (impl None)", None
+            vals = [Fraction(model[1 + 2 * i], model[2 + 2 * i])
+                    for i in range(17)]
+            exm = {}
+            for k, v in zip(MOM, vals):
+                o = ORDER.get(k, 3)
+                exm[k] = (o, v / den ** (o + 2))
+            for k, (o, v) in exm.items():
+                if o == 3 and not third_ok:
+                    continue
+                tsc = sabs0 * 4.0 * (2.0 * cmax0) ** o / den ** (o + 2)
+                if not close(v, mom[k], scale=tsc, srel=1e-14):
+                    return "cont_moments_cv float32 [%s]" % k, float(mom[k])
+            return None
+        ctx.add("run_moments", r_pts(num0), case, chk)
+    run.record_case(case, nontrivial)
+
+
 SEQ_OPS = ["raw", "cvx", "prnc", "tilt", "moments", "volume"]
 
 
@@ -1527,7 +1776,8 @@ def do_sequence(ctx, case):
 DISPATCH = dict(mask=do_mask, dedup=do_dedup, moments=do_moments,
                 rotation=do_rotation, volrev=do_volrev, volume=do_volume,
                 sphere=do_sphere, bright=do_bright, crosstalk=do_crosstalk,
-                dataset=do_dataset, sequence=do_sequence)
+                dataset=do_dataset, sequence=do_sequence,
+                fmoments=do_fmoments)
 
 
 def load_corpus():
@@ -1609,6 +1859,7 @@ def run(run):
                    angles=[rng.uniform(0, 2 * math.pi) for _ in range(3)])
               for _ in range(40 * f)]
     later += [gen_sequence(rng, ctx.pool_contours) for _ in range(120 * f)]
+    later += [gen_fmoments(rng, ctx.pool_contours) for _ in range(100 * f)]
     later += [gen_volrev(rng) for _ in range(120 * f)]
     later += [gen_volume(rng, ctx.pool_contours) for _ in range(120 * f)]
     later += [dict(kind="sphere", a=rng.choice([3.0, 4.5, 6.0, 5.0]),
@@ -1740,7 +1991,7 @@ def search(run, broken):
     correspondence is broken"""
     rng = run.rng
     for i in range(6000 if run.thorough else 1500):
-        k = i % 8
+        k = i % 9
         if k == 0:
             c = gen_mask(rng, True)
         elif k == 1:
@@ -1755,6 +2006,8 @@ def search(run, broken):
             c = gen_crosstalk(rng)
         elif k == 6:
             c = gen_sequence(rng, [])
+        elif k == 7:
+            c = gen_fmoments(rng, [])
         else:
             c = gen_dedup(rng)
         try:
